@@ -19,3 +19,8 @@ claim('C10',
       note="Trusted: harness/refs/popindex.py. Marginalisation is compared on non-corner entries (dadi sums masked arrays, so masked corners are skipped). combine/scramble do not commute with projection of the merged axes mathematically, so only the laws that hold are asserted.",
       technique="property-based testing (Hypothesis) against explicit re-indexing oracles",
       design_ref="DESIGN.md 3/C10")
+claim('C11',
+      text="Generated model/data pairs (1-3 dimensions, integer, zero and non-integer data, independent masks, folded data) compared with an explicit lgamma loop for ll / ll_per_bin, a golden-section maximisation over the scale for ll_multinom, the closed-form optimal scaling, competitor models for the saturation property, and explicit formulas and mask rules for both residuals.",
+      note="Trusted: math.lgamma, my golden-section search. Cases with no jointly unmasked entry or no data there are skipped (degenerate). Model entries are positive by construction.",
+      technique="property-based testing (Hypothesis) against an explicit Poisson oracle and a brute-force 1-D maximisation",
+      design_ref="DESIGN.md 3/C11")
